@@ -57,8 +57,6 @@ type listener struct {
 func (l *listener) Accept() (net.Conn, error) {
 	select {
 	case c := <-l.acceptCh:
-		l.connWG.Add(1)
-
 		return c, nil
 
 	case <-l.readDoneCh:
@@ -87,6 +85,7 @@ func (l *listener) Close() error {
 			case c := <-l.acceptCh:
 				close(c.doneCh)
 				delete(l.conns, c.rAddr.String())
+				l.connWG.Done()
 
 			default:
 				break lclose
@@ -287,6 +286,9 @@ func (l *listener) getConn(raddr net.Addr, buf []byte) (*Conn, bool, error) {
 		conn = l.newConn(raddr)
 		select {
 		case l.acceptCh <- conn:
+			// the reference is taken here, under connLock, so that a
+			// concurrent Close cannot release the socket under Accept
+			l.connWG.Add(1)
 			l.conns[raddr.String()] = conn
 		default:
 			return nil, false, ErrListenQueueExceeded
